@@ -72,8 +72,14 @@ def is_new(v):
     return vget(v, "alloc") == 1 and vget(v, "init") == 1 and vget(v, "own") == 1 and z(v, "alloc", "init")
 
 
+def released(v):
+    """Count units given back by releasing owners: a decrement, or a free by an owner that observed `count == 1`
+    (shape S3; C01 R-DESTROY and C02 R-ORD-2 check that observation)."""
+    return vget(v, "dec") + vget(v, "free_raw")
+
+
 def is_cow_clone(v):
-    return vget(v, "alloc") == 1 and vget(v, "init") == 1 and vget(v, "dec") == 1 and vget(v, "own") == 0 and vget(v, "uclone") >= 1 and vget(v, "inc") == 0 and vget(v, "free_raw") == 0
+    return vget(v, "alloc") == 1 and vget(v, "init") == 1 and released(v) == 1 and vget(v, "own") == 0 and vget(v, "uclone") >= 1 and vget(v, "inc") == 0
 
 
 def is_unwrapped(v):
@@ -105,9 +111,10 @@ def check_class(cls, vecs):
                 return "a clone-style operation must raise the count by exactly one and produce exactly one owner; a path has %s" % balance.vec_str(v)
     elif cls == "RELEASE":
         for v in vs:
-            if not (vget(v, "dec") == 1 and vget(v, "free_s1") <= 1 and z(v, "dec", "free_s1") and vget(v, "own") == 0):
+            sole = vget(v, "dec") == 0 and vget(v, "free_raw") == 1 and z(v, "free_raw") and vget(v, "own") == 0  # freed by an owner that observed count == 1 (C01 R-DESTROY / C02 check the observation)
+            if not sole and not (vget(v, "dec") == 1 and vget(v, "free_s1") <= 1 and z(v, "dec", "free_s1") and vget(v, "own") == 0):
                 return "releasing an owner must lower the count by exactly one (and free only after observing 1); a path has %s" % balance.vec_str(v)
-        if not any(vget(v, "free_s1") == 1 for v in vs) or not any(vget(v, "free_s1") == 0 for v in vs):
+        if not any(vget(v, "free_s1") == 1 or vget(v, "free_raw") == 1 for v in vs) or not any(vget(v, "free_s1") == 0 and vget(v, "free_raw") == 0 for v in vs):
             return "expected both a path that frees (last owner) and one that does not"
     elif cls == "RAW-OUT":
         for v in vs:
@@ -136,7 +143,7 @@ def check_class(cls, vecs):
     elif cls == "UNWRAP-OR-CLONE":
         for v in vs:
             a = is_unwrapped(v) and vget(v, "uclone") == 0
-            b = vget(v, "uclone") >= 1 and vget(v, "dec") == 1 and vget(v, "own") == -1 and vget(v, "inc") == 0 and vget(v, "alloc") == 0 and vget(v, "free_raw") == 0
+            b = vget(v, "uclone") >= 1 and released(v) == 1 and vget(v, "own") == -1 and vget(v, "inc") == 0 and vget(v, "alloc") == 0
             if not (a or b):
                 return "must either move the value out of the solely owned block, or clone it and release one owner; a path has %s" % balance.vec_str(v)
         if not any(is_unwrapped(v) for v in vs) or not any(vget(v, "uclone") for v in vs):
